@@ -95,8 +95,8 @@ def run(ck):
             counts["kind:" + str(c.get("kind"))] += 1
             counts["detail:" + detail] += 1
             counts["mode:" + mode] += 1
-            if r.outcome[0] == "unsupported":
-                continue
+            if r.outcome[0] == "unsupported" and not c.get("direct_only"):
+                continue     # (a direct-only case holds values the model cannot name: the direct oracles still judge its trace)
             probs = problems_of(r, plain_out, plain_exc)
             for s in signatures(r, probs):
                 counts["finding:" + s] += 1
